@@ -316,8 +316,7 @@ def run(ctx):
         case = {'map': e['file'], 'family': kinds, 'terms': list(terms), 'k': ['c19', ctx.shard, k], 'text': text if len(text) < 8000 else None}
         judge(ctx, text, 'E', case, sigs)
         n += 1
-        if k == 1:
-            ctx.case(n=0, sample={'map': e['file'], 'family': kinds, 'text_head': text[:300]})
+        ctx.sample({'map': e['file'], 'family': kinds, 'text_head': text[:300]})
     ctx.case(n=n, sigs=sorted(sigs))
 
 
